@@ -12,7 +12,7 @@ INJ_THOROUGH = INJ_QUICK + [(("h/a/", 2, "/v1/m"), ("h/a/", 2, "/v1/m")), (("h/s
 
 def x_obligations(tier):
     o = []
-    T = 170 if tier == "quick" else 1500
+    T = 170 if tier == "quick" else 600
     for cfg in ("local", "server"):
         for i, (pre, n, suf) in enumerate(RT_QUICK if tier == "quick" else RT_THOROUGH):
             if tier == "quick" and cfg == "server" and i % 2 == 0:
